@@ -15,9 +15,10 @@
     theorems state their hypotheses).  Every comparison between encoded sizes is an
     oracle boolean ([orc], one record per AddFrame call, plus one for Close).
 
-    The record [fixes] selects between the code as pinned (all false) and the three
-    repairs proposed in work/patches (blend test, filler rectangle, ALPH wiring);
-    the harness determines which variant /repo currently is by probing it. *)
+    The record [fixes] exists only so that the defects of the code as it was pinned
+    can be stated and refuted ([pinned], all false: no clearKeptPixels, stale
+    prevFrameRect after a filler, lossy frames without ALPH).  The code under test is
+    [repaired]; the extracted runner is hard-wired to it. *)
 From Coq Require Import List ZArith Lia Bool.
 From Webp Require Import Anim.Blend Anim.Canvas Anim.AnimDec.
 Import ListNotations.
@@ -105,11 +106,9 @@ Definition extract_sub (W : Z) (c : canvas) (r : rect) : img :=
 Definition rect_forall (r : rect) (P : Z -> Z -> bool) : bool :=
   forallb (fun y => forallb (fun x => P x y) (zspan (rx0 r) (rx1 r))) (zspan (ry0 r) (ry1 r)).
 
-(* isLosslessBlendingPossible, per pixel: [s] previous canvas, [d] target.
-   pinned:   d.A = 255 or s = d
-   repaired: d.A = 255 or (s = d and d.A = 0) *)
-Definition lossless_px_ok (fixb : bool) (s d : px) : bool :=
-  (pa d =? 255) || (px_eqb s d && (negb fixb || (pa d =? 0))).
+(* isLosslessBlendingPossible, per pixel: [s] previous canvas, [d] target:
+   d.A = 255 or s = d *)
+Definition lossless_px_ok (s d : px) : bool := (pa d =? 255) || px_eqb s d.
 
 (* qualityToMaxDiff for quality 0..100 (compared with the Go function for all
    101 arguments on every run of the check). *)
@@ -127,8 +126,21 @@ Definition pixels_similar (s d : px) (md : Z) : bool :=
   (Z.abs (pg s - pg d) * pa d <=? md * 255) &&
   (Z.abs (pb s - pb d) * pa d <=? md * 255).
 
-Definition lossy_px_ok (fixb : bool) (md : Z) (s d : px) : bool :=
-  (pa d =? 255) || (pixels_similar s d md && (negb fixb || (pa d =? 0))).
+Definition lossy_px_ok (md : Z) (s d : px) : bool :=
+  (pa d =? 255) || pixels_similar s d md.
+
+(* clearKeptPixels: in a sub-frame that will be alpha-blended, a pixel that is
+   neither opaque nor transparent and has the alpha of the canvas underneath (the
+   blending test accepted it only because it is unchanged / similar) is made fully
+   transparent, so that blending keeps the canvas pixel. *)
+Definition clear_kept (W : Z) (sub : img) (base : canvas) (r : rect) : img :=
+  mkimg (iw sub) (ih sub)
+    (tab (iw sub) (ih sub) (fun x y =>
+       let p := iget sub x y in
+       if (rx0 r + x <? rx1 r) && (ry0 r + y <? ry1 r) &&
+          negb (pa p =? 255) && negb (pa p =? 0) &&
+          (pa p =? pa (cget W base (rx0 r + x) (ry0 r + y)))
+       then px0 else p)).
 
 (* ------------------------------------------------------------------ *)
 (* The part of mux.Muxer the encoder drives                             *)
@@ -282,10 +294,11 @@ Definition candidate (fx : fixes) (o : eopts) (W H : Z) (base curr : canvas) : r
   let r2 := intersect (snap_to_even r1) (canvas_bounds W H) in
   let ok :=
     if eo_lossless o
-    then rect_forall r2 (fun x y => lossless_px_ok (fix_blend fx) (cget W base x y) (cget W curr x y))
-    else rect_forall r2 (fun x y => lossy_px_ok (fix_blend fx) (quality_to_max_diff (eo_quality o))
+    then rect_forall r2 (fun x y => lossless_px_ok (cget W base x y) (cget W curr x y))
+    else rect_forall r2 (fun x y => lossy_px_ok (quality_to_max_diff (eo_quality o))
                                                  (cget W base x y) (cget W curr x y)) in
-  (r2, negb ok, extract_sub W curr r2).
+  let sub := extract_sub W curr r2 in
+  (r2, negb ok, if fix_blend fx && ok then clear_kept W sub base r2 else sub).
 
 Definition encode_sub_frame (fx : fixes) (st : est) (prev curr : canvas) (dur : Z) (o : orc) : est :=
   let W := e_W st in let H := e_H st in let op := e_opts st in
